@@ -2,7 +2,7 @@
 open Model
 open Util
 
-let names_tbl = [| "dflt"; "reno"; "renoX"; "cubic" |]
+let names_tbl = [| "dflt"; "reno"; "renoX"; "cubic_012345678901234567890123456789012345678901234567890123456" |]
 let bytes_of_string (s : string) : n list =
   List.init (String.length s) (fun i -> byte_table.(Char.code s.[i]))
 let string_of_bytes (b : n list) : string =
@@ -261,7 +261,71 @@ let cmd_loop (_param : string) (arg : string) (_impl : string) : string * string
               if not (Hashtbl.mem origins (a', le32 8)) then fails := "C09:command-to-foreign-address-or-flow" :: !fails
             | "CMD" :: "ok-BUT-WRONG-SCOPE" :: _ -> fails := "C11:returned-scope-is-not-the-selected-program" :: !fails
             | _ -> ()) items;
+        (* Specification projections.  The model is proved to refine the flat (address, flow id) ->
+           handler specification, so its log, projected onto what a property constrains, is what the
+           property demands for this history; the implementation's projected log must equal it.  A
+           property is blamed only when everything it builds on (the dispatch of callbacks, then the
+           installation/selection layer) agrees, so that one defect is reported under the property
+           it violates and not under all of them. *)
+        let model_items = log in
+        let toks it = String.split_on_char ' ' it in
+        let le32h h off = if String.length h >= off + 8 then n_to_hex (n_of_hex (String.concat "" (List.rev_map (fun i -> String.sub h (off + 2 * i) 2) [0; 1; 2; 3]))) else "?" in
+        let proj f l = List.filter_map f l in
+        let p02 it = match toks it with
+          | "NEW" :: h :: _inst :: rest -> Some (String.concat " " ("NEW" :: h :: rest))
+          | "REP" :: _ | "CLOSE" :: _ -> Some it
+          | _ -> None in
+        let p15 it = match toks it with
+          | "NEW" :: h :: inst :: _ -> Some (String.concat " " ["NEW"; h; inst])
+          | "INSTALL" :: _ -> Some it
+          | _ -> None in
+        let p05 it = match toks it with
+          | "INSTALL" :: _ -> Some it
+          | ["CHG"; a; h] -> Some (String.concat " " ["CHG"; a; le32h h 16])
+          | "CHG" :: a :: "UNKNOWN-UID" :: _ -> Some (String.concat " " ["CHG"; a; "UNKNOWN-UID"])
+          | "NEW" :: h :: _ -> Some ("NEW " ^ h)
+          | _ -> None in
+        let p09 it = match toks it with
+          | ["CHG"; a; h] | ["UPD"; a; h] -> Some (String.concat " " ["CMDTO"; a; le32h h 8])
+          | _ -> None in
+        let p11 it = match toks it with
+          | "CMD" :: _ | "CHG" :: _ | "UPD" :: _ -> Some it
+          | _ -> None in
+        let p12 it = match toks it with
+          | "GET" :: _ -> Some it
+          | _ -> None in
+        let differs f = proj f items <> proj f model_items in
+        if not (starts_with "PANIC" tail) && _impl <> "PANIC" then begin
+          let d02 = differs p02 in
+          let d15 = differs p15 in
+          let d05 = differs p05 in
+          (* a command that went somewhere else, as opposed to one that should (not) have been sent *)
+          let d09 = differs p09 && List.length (proj p09 items) = List.length (proj p09 model_items) in
+          let d11 = differs p11 in
+          let d12 = differs p12 in
+          if d02 then fails := "C02:callbacks-differ-from-the-flat-map-specification" :: !fails
+          else begin
+            if d15 then fails := "C15:handling-algorithm-or-installed-set-differs" :: !fails;
+            if d05 && not d15 then fails := "C05:installations-or-selected-uids-differ" :: !fails;
+            if d09 then fails := "C09:command-destination-or-flow-id-differs" :: !fails;
+            if d11 && not d05 && not d09 then fails := "C11:command-result-or-message-differs" :: !fails;
+            if d12 && not d11 && not d05 then fails := "C12:field-lookup-result-differs" :: !fails
+          end
+        end;
         if !fails = [] then "ok" else "FAIL:" ^ String.concat "," (List.sort_uniq compare !fails)
       end in
     (s, verdict)
   end
+
+(* C16: the same history with and without datagrams the runtime must ignore.  The model is run on
+   both (it ignores them: SAME); the verdict is about the implementation's two runs. *)
+let cmd_ignore (param : string) (arg : string) (impl : string) : string * string =
+  match split_on_string " ## " arg with
+  | [a; b] ->
+    let (ma, _) = cmd_loop param a "" and (mb, _) = cmd_loop param b "" in
+    let m = if ma = mb then "SAME" else "DIFF " ^ ma ^ " ## " ^ mb in
+    let v = if impl = "" then "-"
+      else if impl = "SAME" then "ok"
+      else "FAIL:C16:ignored-message-changed-later-dispatch" in
+    (m, v)
+  | _ -> ("UNPARSABLE", "-")
